@@ -139,7 +139,9 @@ fn main() {
         ];
         let mut wide_vars = wide_vars;
         // custom leaves of every scalar JSON type (fractional, exponent, negative, boolean, numeric text): each is a set value
-        for (name, val) in [("custom_float", json!(3.11)), ("custom_neg_float", json!(-0.5)), ("custom_exp", json!(1e21)), ("custom_one_point_zero", json!(1.0)), ("custom_neg_int", json!(-7)), ("custom_false", json!(false)), ("custom_numeric_text", json!("007.50")), ("custom_small_exp", json!(1e-7))] {
+        for (name, val) in [("custom_float", json!(3.11)), ("custom_neg_float", json!(-0.5)), ("custom_exp", json!(1e21)), ("custom_one_point_zero", json!(1.0)), ("custom_neg_int", json!(-7)), ("custom_false", json!(false)), ("custom_numeric_text", json!("007.50")), ("custom_small_exp", json!(1e-7)),
+            // digits wrapped in white space of every kind (ASCII, NBSP, EM SPACE, ideographic space, vertical tab): still an integer
+            ("custom_ws_ascii", json!(" 7 ")), ("custom_ws_nbsp", json!("\u{a0}7")), ("custom_ws_emspace", json!("\u{2003}12\u{2003}")), ("custom_ws_ideographic", json!("\u{3000}3")), ("custom_ws_vt", json!("\u{b}5")), ("custom_ws_inner", json!("1\u{a0}2"))] {
             wide_vars.push((name, RVars { major: Some(1), minor: Some(2), patch: Some(7), distance: Some(12), bumped_branch: Some("py".into()), bumped_timestamp: Some(1710511845), custom: json!({"k": val}), ..Default::default() }));
         }
         let base = vec![V(RVar::Major), V(RVar::Minor), V(RVar::Patch)];
